@@ -218,6 +218,42 @@ def rule_dispatch(ctx, rep, rid):
                       "no resize step once destroy is in progress", "%s can run while a destroy is in progress" % callee, [c.where()])
 
 
+def rule_orders(ctx, rep, rid):
+    """_do_cds_lfht_grow / _shrink: grow creates levels order(old) + 1 .. order(new); shrink removes levels order(new) + 1 ..
+    order(old), with new clamped to the minimum table size"""
+    m = ctx.mod("cds", "perfn")
+
+    def order_of(f, v):
+        e = ir.expr(f, v, 3)
+        if e[0] == "bin" and e[1] == "add" and e[3] == ("c", 1):
+            inner = order_of(f, f.inst_of(v).args[0]) if f.inst_of(v) is not None else None
+            return (inner[0], 1) if inner else None
+        if e[0] == "call" and e[1].startswith("cds_lfht_get_count_order"):
+            a = ir.expr(f, f.insts[e[2]].args[0], 4)
+            if a[0] == "arg":
+                return (a[1], 0)
+            if a[0] == "select" and a[2][0] == "arg":
+                return (a[2][1], 0)
+        return None
+    for name, callee, want in (("_do_cds_lfht_grow", "init_table", ((1, 1), (2, 0))), ("_do_cds_lfht_shrink", "fini_table", ((2, 1), (1, 0)))):
+        f = m.fn(name)
+        if f is None:
+            raise Broken(name + " vanished")
+        rep.touch(f)
+        cs = pat.calls(f, callee)
+        pat.require(cs, name + ": " + callee)
+        got = (order_of(f, cs[0].args[1]), order_of(f, cs[0].args[2]))
+        if None in got:
+            und = [k for k in (1, 2) if cs[0].args[k] and cs[0].args[k][0] == "undef"]
+            if und:
+                rep.bad(rid, name + ".levels", "%s is given an undefined level bound (argument %d): an arbitrary range of levels is created / removed" % (callee, und[0]), [cs[0].where()])
+                continue
+            raise Broken("%s: level arguments of %s not recognised" % (name, callee))
+        show = lambda g: "order(%s)%s" % ("old" if g[0] == 1 else "new", " + 1" if g[1] else "")
+        rep.check(got == want, rid, name + ".levels", "%s(ht, %s, %s)" % (callee, show(want[0]), show(want[1])),
+                  "%s is called for levels %s .. %s, expected %s .. %s" % (callee, show(got[0]), show(got[1]), show(want[0]), show(want[1])), [cs[0].where()])
+
+
 def rule_del(ctx, rep, rid):
     """cds_lfht_del: the node count is decremented only for the caller that won the removal, with the node's own hash"""
     m = ctx.mod("cds", "perfn")
